@@ -79,6 +79,7 @@ impl DerivedTS {
             &generics,
             self.bound.as_deref(),
             &self.dependencies,
+            &self.concrete,
         );
         let assoc_type = generate_assoc_type(&rust_ty, &crate_rename, &generics, &self.concrete);
         let name = self.generate_name_fn(&generics);
@@ -334,6 +335,7 @@ fn generate_impl_block_header(
     generics: &Generics,
     bounds: Option<&[WherePredicate]>,
     dependencies: &Dependencies,
+    concrete: &HashMap<Ident, Type>,
 ) -> TokenStream {
     use GenericParam as G;
 
@@ -366,7 +368,7 @@ fn generate_impl_block_header(
     let where_bound = match bounds {
         Some(bounds) => quote! { where #(#bounds),* },
         None => {
-            let bounds = generate_where_clause(crate_rename, generics, dependencies);
+            let bounds = generate_where_clause(crate_rename, generics, dependencies, concrete);
             quote! { #bounds }
         }
     };
@@ -378,11 +380,24 @@ fn generate_where_clause(
     crate_rename: &Path,
     generics: &Generics,
     dependencies: &Dependencies,
+    concrete: &HashMap<Ident, Type>,
 ) -> WhereClause {
+    // `visit_generics` visits every type parameter which is not made concrete, whether or not a
+    // field type mentions it (it may only occur in skipped or overridden fields, or behind
+    // `OptionInnerType`), so each of them needs the bound.
+    let type_params: Vec<Type> = generics
+        .type_params()
+        .filter(|p| !concrete.contains_key(&p.ident))
+        .map(|p| {
+            let ident = &p.ident;
+            parse_quote!(#ident)
+        })
+        .collect();
+
     let used_types = {
         let is_type_param = |id: &Ident| generics.type_params().any(|p| &p.ident == id);
 
-        let mut used_types = HashSet::new();
+        let mut used_types: HashSet<&Type> = type_params.iter().collect();
         for ty in dependencies.used_types() {
             used_type_params(&mut used_types, ty, is_type_param);
         }
